@@ -9,7 +9,7 @@ TIER="${MUT_TIER:-quick}"
 WT=$(mktemp -d /var/tmp/mutwt.XXXXXX); OUT=$(mktemp -d /var/tmp/mutout.XXXXXX)
 trap 'git -C /repo worktree remove --force "$WT" >/dev/null 2>&1; rm -rf "$WT" "$OUT"' EXIT
 rmdir "$WT"; git -C /repo worktree add --detach -q "$WT" "${MUT_BASE:-HEAD}" || exit 3
-git -C "$WT" apply "$DIFF" || { echo "MUTANT: patch does not apply"; exit 3; }
+[ -n "${MUT_NOPATCH:-}" ] || git -C "$WT" apply "$DIFF" || { echo "MUTANT: patch does not apply"; exit 3; }
 export GOFLAGS=-mod=mod GOPROXY=off GOSUMDB=off GOTOOLCHAIN=local
 ( cd "$WT/v5" && go build ./... && go test -vet=off -count=1 ./... >"$OUT/suite.log" 2>&1 ) && echo "MUTANT: suite PASS" || { echo "MUTANT: suite FAILS or does not build"; tail -5 "$OUT/suite.log"; }
 for p in "$@"; do
